@@ -487,6 +487,27 @@ def write_evidence(mod, tier, seed, agg, wall, inconclusive, extra=None):
     os.replace(tmp, os.path.join(d, pid + ".json"))
 
 
+def run_pytest_workload(mod, tier, seed, files, tmpd, timeout):
+    """The repository's own tests as a workload, monitors attached (mechanism B)."""
+    out = os.path.join(tmpd, "pytest.json")
+    env = dict(os.environ)
+    env.update({GUARD: "1", "VMON_PROP": mod.ID, "VMON_OUT": out, "VMON_TIER": tier,
+                "VERIF_SEED": str(seed), "PYTHONHASHSEED": "0",
+                "PYTHONPATH": os.path.join(REPO, "src") + os.pathsep + HERE})
+    cmd = [sys.executable, "-m", "pytest", "-q", "-p", "no:cacheprovider", "-p", "vmon.pytest_plugin",
+           "-W", "ignore", "--timeout=900"] + list(files) + list(getattr(mod, "PYTEST_ARGS", []))
+    try:
+        with open(os.path.join(tmpd, "pytest.log"), "w") as lf:
+            subprocess.run(cmd, cwd=REPO, env=env, stdout=lf, stderr=lf, timeout=timeout)
+    except subprocess.TimeoutExpired:
+        return None, "watchdog"
+    if not os.path.exists(out):
+        with open(os.path.join(tmpd, "pytest.log")) as f:
+            return None, "no result: " + f.read()[-800:]
+    with open(out) as f:
+        return json.load(f), ""
+
+
 def run_check(pid, tier, seed, ncases=None, nshards=None):
     mod = load_mod(pid)
     budget = mod.BUDGET[tier]
@@ -524,6 +545,14 @@ def run_check(pid, tier, seed, ncases=None, nshards=None):
             with open(errf.name) as f:
                 tail = f.read()[-1500:]
             inconclusive.append("shard %d exited %s without result: %s" % (s, rc, tail))
+    pt = getattr(mod, "PYTEST_FILES", None)
+    if pt and (tier == "thorough" or getattr(mod, "PYTEST_QUICK", False)) and ncases is None:
+        r, why = run_pytest_workload(mod, tier, seed, pt, tmpd, max(60.0, timeout - (time.time() - t0)))
+        if r is not None:
+            r.setdefault("stats", {})["repo_tests_exit_%s" % r.get("pytest_exitstatus")] = 1
+            results.append(r)
+        else:
+            inconclusive.append("repo-test workload: " + why)
     agg = merge(results)
     shutil.rmtree(tmpd, ignore_errors=True)
     for st in agg["stopped"]:
